@@ -859,6 +859,15 @@ func (s *session) closeLocked() error {
 		return nil
 	} // readDisconnected is being called
 	verifGate("close.afterCAS", s)
+	s.peer.closingSessions.Add(1)
+	closing := true
+	closingDone := func() {
+		if closing {
+			closing = false
+			s.peer.closingSessions.Done()
+		}
+	}
+	defer closingDone()
 	s.peer.sessHub.deleteIf(s.ID(), s)
 	s.notifyClosed()
 	verifGate("close.afterIndexDelete", s)
@@ -869,6 +878,8 @@ func (s *session) closeLocked() error {
 	s.changeStatus(statusActiveClosed)
 	err := s.socket.Close()
 	verifGate("close.afterSocketClose", s)
+	// before the disconnect hook: a hook may close the peer
+	closingDone()
 	s.peer.pluginContainer.postDisconnect(s)
 	return err
 }
